@@ -993,7 +993,510 @@ theorem pruneNe_ok (cs : List Int) (xs : List Nat) (c : Int) (B : Nat) (hr : Row
         exact allOk_append hpre (exclude_ok _ _ ctx B hst hdom (by omega))
       · exact hpre
 
+/-! #### the clamped re-statement agrees with `Lin.*` / `PK.prune` -/
+
+theorem sign_pos' {b : Int} (h : 0 < b) : b.sign = 1 := Int.sign_eq_one_of_pos h
+theorem sign_neg' {b : Int} (h : b < 0) : b.sign = -1 := Int.sign_eq_neg_one_of_neg h
+
+theorem divRound_floor (a b : Int) (hb : b ≠ 0) : (LS.divRound a b false).2 = floorDiv a b := by
+  unfold floorDiv
+  rw [Int.fdiv_eq_tdiv]
+  simp only [LS.divRound, Bool.false_eq_true, if_false]
+  by_cases hd : b ∣ a
+  · have : a.tmod b = 0 := Int.tmod_eq_zero_of_dvd hd
+    simp [hd, this]
+  · have ht : a.tmod b ≠ 0 := fun h => hd (Int.dvd_of_tmod_eq_zero h)
+    simp only [hd, if_false, ht, ne_eq, not_false_eq_true, decide_true, Bool.true_and]
+    by_cases ha : 0 ≤ a <;> by_cases hbp : 0 ≤ b
+    · have : ¬ a < 0 := by omega
+      have : ¬ b < 0 := by omega
+      simp [*]
+    · have : ¬ a < 0 := by omega
+      have : b < 0 := by omega
+      simp [*]
+    · have : a < 0 := by omega
+      have : ¬ b < 0 := by omega
+      have hs := sign_pos' (b := b) (by omega)
+      simp [*]
+    · have : a < 0 := by omega
+      have : b < 0 := by omega
+      have hs := sign_neg' (b := b) (by omega)
+      simp [*]
+
+theorem divRound_ceil (a b : Int) (hb : b ≠ 0) : (LS.divRound a b true).2 = ceilDiv a b := by
+  unfold ceilDiv
+  rw [Int.fdiv_eq_tdiv, Int.neg_tdiv]
+  simp only [LS.divRound, if_true]
+  by_cases hd : b ∣ a
+  · have : a.tmod b = 0 := Int.tmod_eq_zero_of_dvd hd
+    have hd' : b ∣ -a := Int.dvd_neg.2 hd
+    simp [hd', this]
+  · have ht : a.tmod b ≠ 0 := fun h => hd (Int.dvd_of_tmod_eq_zero h)
+    have hd' : ¬ b ∣ -a := fun h => hd (Int.dvd_neg.1 h)
+    have ha0 : a ≠ 0 := by intro h; apply hd; rw [h]; exact Int.dvd_zero b
+    simp only [hd', if_false, ht, ne_eq, not_false_eq_true, decide_true, Bool.true_and]
+    by_cases ha : a < 0 <;> by_cases hbp : 0 ≤ b
+    · have h1 : a ≤ 0 := by omega
+      have h2 : ¬ b < 0 := by omega
+      simp only [Int.neg_nonneg, h1, hbp, ha, h2, if_true, decide_true, decide_false]
+      simp
+    · have h1 : a ≤ 0 := by omega
+      have h2 : b < 0 := by omega
+      simp only [Int.neg_nonneg, h1, hbp, ha, h2, if_true, if_false, decide_true]
+      simp; omega
+    · have h1 : ¬ a ≤ 0 := by omega
+      have h2 : ¬ b < 0 := by omega
+      have hs := sign_pos' (b := b) (by omega)
+      simp only [Int.neg_nonneg, h1, hbp, ha, h2, hs, if_true, if_false, decide_false]
+      simp; omega
+    · have h1 : ¬ a ≤ 0 := by omega
+      have h2 : b < 0 := by omega
+      have hs := sign_neg' (b := b) (by omega)
+      simp only [Int.neg_nonneg, h1, hbp, ha, h2, hs, if_true, if_false, decide_true, decide_false]
+      simp
+
+/-- the loop body of `Lin.otherBounds` -/
+def exactStep (cs : List Int) (xs : List Nat) (st : Store) (i : Nat) (acc : Int × Int) (j : Nat) : Int × Int :=
+  if j = i then acc else
+    let tb := Lin.termBounds (cs.getD j 0) (st (xs.getD j 0)).dmin (st (xs.getD j 0)).dmax
+    (acc.1 + tb.1, acc.2 + tb.2)
+
+theorem otherBounds_eq (cs : List Int) (xs : List Nat) (st : Store) (i : Nat) (hlen : xs.length ≤ cs.length) :
+    Lin.otherBounds cs xs st i = (List.range xs.length).foldl (exactStep cs xs st i) (0, 0) := by
+  unfold Lin.otherBounds
+  have : Nat.min cs.length xs.length = xs.length := Nat.min_eq_right hlen
+  rw [this]
+  rfl
+
+theorem othersStep_val (both : Bool) (cs : List Int) (xs : List Nat) (st : Store) (i B : Nat)
+    (hst : VS.StoreOK st B) (acc : List Site × Int × Int) (j A : Nat)
+    (h2 : acc.2.1.natAbs ≤ A) (h3 : acc.2.2.natAbs ≤ A) (hA : A + term cs B j ≤ 2147483647) :
+    (LS.othersStep both cs xs st i acc j).2 = exactStep cs xs st i acc.2 j := by
+  unfold LS.othersStep exactStep
+  by_cases hji : j = i
+  · rw [if_pos hji, if_pos hji]
+  · rw [if_neg hji, if_neg hji]
+    obtain ⟨hne, hb⟩ := hst (xs.getD j 0)
+    have pmin := mul_abs (cs.getD j 0) _ B (hb _ (Dom.dmin_mem _ hne))
+    have pmax := mul_abs (cs.getD j 0) _ B (hb _ (Dom.dmax_mem _ hne))
+    have ht : term cs B j = (cs.getD j 0).natAbs * B := rfl
+    have hmn : (if cs.getD j 0 > 0 then cs.getD j 0 * (st (xs.getD j 0)).dmin else cs.getD j 0 * (st (xs.getD j 0)).dmax).natAbs ≤ term cs B j := by
+      split <;> omega
+    have hmx : (if cs.getD j 0 > 0 then cs.getD j 0 * (st (xs.getD j 0)).dmax else cs.getD j 0 * (st (xs.getD j 0)).dmin).natAbs ≤ term cs B j := by
+      split <;> omega
+    have s1 := Int.natAbs_add_le acc.2.1 (if cs.getD j 0 > 0 then cs.getD j 0 * (st (xs.getD j 0)).dmin else cs.getD j 0 * (st (xs.getD j 0)).dmax)
+    have s2 := Int.natAbs_add_le acc.2.2 (if cs.getD j 0 > 0 then cs.getD j 0 * (st (xs.getD j 0)).dmax else cs.getD j 0 * (st (xs.getD j 0)).dmin)
+    show (LS.sat _, LS.sat _) = _
+    rw [sat_id _ (by omega), sat_id _ (by omega)]
+    unfold Lin.termBounds
+    by_cases hc : cs.getD j 0 > 0
+    · simp only [hc, if_true]
+    · simp only [hc, if_false]
+
+theorem others_fold_val (both : Bool) (cs : List Int) (xs : List Nat) (st : Store) (i B : Nat)
+    (hst : VS.StoreOK st B) :
+    ∀ (js : List Nat) (acc : List Site × Int × Int) (A : Nat), (∀ j ∈ js, j < cs.length) →
+      AllOk true acc.1 → acc.2.1.natAbs ≤ A → acc.2.2.natAbs ≤ A →
+      A + (js.map (term cs B)).sum ≤ 2147483647 →
+      (js.foldl (LS.othersStep both cs xs st i) acc).2 = js.foldl (exactStep cs xs st i) acc.2 := by
+  intro js
+  induction js with
+  | nil => intro acc A _ _ _ _ _; rfl
+  | cons j js ih =>
+    intro acc A hjs h1 h2 h3 hA
+    simp only [List.map_cons, List.sum_cons] at hA
+    simp only [List.foldl_cons]
+    obtain ⟨b1, b2, b3⟩ := othersStep_ok both cs xs st i B hst acc j A (hjs j List.mem_cons_self) h1 h2 h3 (by omega)
+    have hv := othersStep_val both cs xs st i B hst acc j A h2 h3 (by omega)
+    rw [ih _ (A + term cs B j) (fun k hk => hjs k (List.mem_cons_of_mem _ hk)) b1 b2 b3 (by omega), hv]
+
+/-- under the magnitude hypothesis the clamped sums are the exact sums of `Lin.otherBounds` -/
+theorem others_eq (both : Bool) (cs : List Int) (xs : List Nat) (st : Store) (i B : Nat)
+    (hst : VS.StoreOK st B) (hlen : xs.length ≤ cs.length) (hW : LS.weight cs xs.length B ≤ 2147483647) :
+    (LS.others both cs xs st i).2 = Lin.otherBounds cs xs st i := by
+  rw [otherBounds_eq cs xs st i hlen]
+  have hW' : 0 + ((List.range xs.length).map (term cs B)).sum ≤ 2147483647 := by
+    rw [Nat.zero_add]; exact hW
+  exact others_fold_val both cs xs st i B hst (List.range xs.length) ([], 0, 0) 0
+    (fun j hj => by have := List.mem_range.1 hj; omega) (allOk_nil _) (by simp) (by simp) hW'
+
+theorem forM_none {α : Type} (l : List α) (f : α → Ctx → Option Ctx) :
+    l.foldl (fun acc a => match acc with | none => none | some c' => f a c') none = none := by
+  induction l with
+  | nil => rfl
+  | cons x l ih => simpa using ih
+
+theorem forM_cons {α : Type} (x : α) (l : List α) (c : Ctx) (f : α → Ctx → Option Ctx) :
+    forM' (x :: l) c f = match f x c with | none => none | some c' => forM' l c' f := by
+  unfold forM'
+  simp only [List.foldl_cons]
+  cases f x c with
+  | none => exact forM_none l f
+  | some c' => rfl
+
+/-- the loop body of `Lin.pruneEq` -/
+def eqBody (cs : List Int) (xs : List Nat) (c : Int) (i : Nat) (ctx : Ctx) : Option Ctx :=
+  let coeff := cs.getD i 0
+  if coeff = 0 then some ctx else
+    let ob := Lin.otherBounds cs xs ctx.st i
+    let tmin := c - ob.2
+    let tmax := c - ob.1
+    let nb : Int × Int :=
+      if coeff > 0 then (ceilDiv tmin coeff, floorDiv tmax coeff)
+      else (ceilDiv tmax coeff, floorDiv tmin coeff)
+    match ctx.trySetMin (xs.getD i 0) nb.1 with
+    | none => none
+    | some c1 => c1.trySetMax (xs.getD i 0) nb.2
+
+theorem lin_pruneEq_def (cs : List Int) (xs : List Nat) (c : Int) (ctx : Ctx) :
+    Lin.pruneEq cs xs c ctx = forM' (List.range xs.length) ctx (eqBody cs xs c) := rfl
+
+theorem eqBounds_val (cs : List Int) (xs : List Nat) (c : Int) (B : Nat) (hr : RowOK cs xs c B)
+    (st : Store) (hst : VS.StoreOK st B) (i : Nat) (hc0 : cs.getD i 0 ≠ 0) :
+    (LS.eqBounds cs xs c st i).2 =
+      (if cs.getD i 0 > 0 then
+        (ceilDiv (c - (Lin.otherBounds cs xs st i).2) (cs.getD i 0), floorDiv (c - (Lin.otherBounds cs xs st i).1) (cs.getD i 0))
+       else
+        (ceilDiv (c - (Lin.otherBounds cs xs st i).1) (cs.getD i 0), floorDiv (c - (Lin.otherBounds cs xs st i).2) (cs.getD i 0))) := by
+  obtain ⟨hlen, hmag, hdom⟩ := hr
+  obtain ⟨_, o2, o3⟩ := others_ok true cs xs st i B hst hlen (by omega)
+  have hv := others_eq true cs xs st i B hst hlen (by omega)
+  have t1 := Int.natAbs_sub_le c (LS.others true cs xs st i).2.2
+  have t2 := Int.natAbs_sub_le c (LS.others true cs xs st i).2.1
+  have st1 := sat_id (c - (LS.others true cs xs st i).2.2) (by omega)
+  have st2 := sat_id (c - (LS.others true cs xs st i).2.1) (by omega)
+  simp only [LS.eqBounds]
+  rw [st1, st2, hv]
+  by_cases hpos : cs.getD i 0 > 0
+  · simp only [hpos, if_true, divRound_ceil _ _ hc0, divRound_floor _ _ hc0]
+  · simp only [hpos, if_false, divRound_ceil _ _ hc0, divRound_floor _ _ hc0]
+
+theorem pruneEq_val (cs : List Int) (xs : List Nat) (c : Int) (B : Nat) (hr : RowOK cs xs c B) :
+    ∀ (is : List Nat) (ctx : Ctx), VS.StoreOK ctx.st B →
+      (LS.pruneEq cs xs c is ctx).2 = forM' is ctx (eqBody cs xs c) := by
+  intro is
+  induction is with
+  | nil => intro ctx _; rfl
+  | cons i rest ih =>
+    intro ctx hst
+    rw [forM_cons]
+    unfold LS.pruneEq eqBody
+    by_cases hc0 : cs.getD i 0 = 0
+    · simp only [hc0, if_true]
+      exact ih ctx hst
+    · simp only [hc0, if_false]
+      have hv := eqBounds_val cs xs c B hr ctx.st hst i hc0
+      have e1 : (LS.eqBounds cs xs c ctx.st i).2.1 = (if cs.getD i 0 > 0 then
+          (ceilDiv (c - (Lin.otherBounds cs xs ctx.st i).2) (cs.getD i 0), floorDiv (c - (Lin.otherBounds cs xs ctx.st i).1) (cs.getD i 0))
+         else
+          (ceilDiv (c - (Lin.otherBounds cs xs ctx.st i).1) (cs.getD i 0), floorDiv (c - (Lin.otherBounds cs xs ctx.st i).2) (cs.getD i 0))).1 := by rw [hv]
+      have e2 : (LS.eqBounds cs xs c ctx.st i).2.2 = (if cs.getD i 0 > 0 then
+          (ceilDiv (c - (Lin.otherBounds cs xs ctx.st i).2) (cs.getD i 0), floorDiv (c - (Lin.otherBounds cs xs ctx.st i).1) (cs.getD i 0))
+         else
+          (ceilDiv (c - (Lin.otherBounds cs xs ctx.st i).1) (cs.getD i 0), floorDiv (c - (Lin.otherBounds cs xs ctx.st i).2) (cs.getD i 0))).2 := by rw [hv]
+      rw [e1, e2]
+      cases h1 : ctx.trySetMin (xs.getD i 0) _ with
+      | none => rfl
+      | some c1 =>
+        simp only []
+        have hst1 := storeOK_trySetMin ctx c1 B _ _ hst h1
+        cases h2 : c1.trySetMax (xs.getD i 0) _ with
+        | none => rfl
+        | some c2 =>
+          simp only []
+          exact ih c2 (storeOK_trySetMax c1 c2 B _ _ hst1 h2)
+
+/-- **the clamped re-statement is the propagator of the contract theorems** -/
+theorem pruneEq_eq_PK (cs : List Int) (xs : List Nat) (c : Int) (B : Nat) (hr : RowOK cs xs c B)
+    (ctx : Ctx) (hst : VS.StoreOK ctx.st B) :
+    (LS.pruneEq cs xs c (List.range xs.length) ctx).2 = PK.prune (.linEq cs xs c) ctx := by
+  show _ = Lin.pruneEq cs xs c ctx
+  rw [lin_pruneEq_def]
+  exact pruneEq_val cs xs c B hr _ ctx hst
+
+/-- the loop body of `Lin.pruneLe` -/
+def leBody (cs : List Int) (xs : List Nat) (c : Int) (i : Nat) (ctx : Ctx) : Option Ctx :=
+  let coeff := cs.getD i 0
+  if coeff = 0 then some ctx else
+    let ob := Lin.otherBounds cs xs ctx.st i
+    let remaining := c - ob.1
+    if coeff > 0 then ctx.trySetMax (xs.getD i 0) (remaining / coeff)
+    else ctx.trySetMin (xs.getD i 0) (remaining / coeff)
+
+theorem lin_pruneLe_def (cs : List Int) (xs : List Nat) (c : Int) (ctx : Ctx) :
+    Lin.pruneLe cs xs c ctx = forM' (List.range xs.length) ctx (leBody cs xs c) := rfl
+
+theorem leBound_val (cs : List Int) (xs : List Nat) (c : Int) (B : Nat) (hr : RowOK cs xs c B)
+    (st : Store) (hst : VS.StoreOK st B) (i : Nat) :
+    (LS.leBound cs xs c st i).2 = (c - (Lin.otherBounds cs xs st i).1) / cs.getD i 0 := by
+  obtain ⟨hlen, hmag, hdom⟩ := hr
+  obtain ⟨_, o2, _⟩ := others_ok false cs xs st i B hst hlen (by omega)
+  have hv := others_eq false cs xs st i B hst hlen (by omega)
+  have t1 := Int.natAbs_sub_le c (LS.others false cs xs st i).2.1
+  have st1 := sat_id (c - (LS.others false cs xs st i).2.1) (by omega)
+  simp only [LS.leBound]
+  rw [st1, hv]
+
+theorem pruneLe_val (cs : List Int) (xs : List Nat) (c : Int) (B : Nat) (hr : RowOK cs xs c B) :
+    ∀ (is : List Nat) (ctx : Ctx), VS.StoreOK ctx.st B →
+      (LS.pruneLe cs xs c is ctx).2 = forM' is ctx (leBody cs xs c) := by
+  intro is
+  induction is with
+  | nil => intro ctx _; rfl
+  | cons i rest ih =>
+    intro ctx hst
+    rw [forM_cons]
+    unfold LS.pruneLe leBody
+    by_cases hc0 : cs.getD i 0 = 0
+    · simp only [hc0, if_true]
+      exact ih ctx hst
+    · simp only [hc0, if_false]
+      rw [leBound_val cs xs c B hr ctx.st hst i]
+      by_cases hpos : cs.getD i 0 > 0
+      · simp only [hpos, if_true]
+        cases h1 : ctx.trySetMax (xs.getD i 0) _ with
+        | none => rfl
+        | some c1 =>
+          simp only []
+          exact ih c1 (storeOK_trySetMax ctx c1 B _ _ hst h1)
+      · simp only [hpos, if_false]
+        cases h1 : ctx.trySetMin (xs.getD i 0) _ with
+        | none => rfl
+        | some c1 =>
+          simp only []
+          exact ih c1 (storeOK_trySetMin ctx c1 B _ _ hst h1)
+
+theorem pruneLe_eq_PK (cs : List Int) (xs : List Nat) (c : Int) (B : Nat) (hr : RowOK cs xs c B)
+    (ctx : Ctx) (hst : VS.StoreOK ctx.st B) :
+    (LS.pruneLe cs xs c (List.range xs.length) ctx).2 = PK.prune (.linLe cs xs c) ctx := by
+  show _ = Lin.pruneLe cs xs c ctx
+  rw [lin_pruneLe_def]
+  exact pruneLe_val cs xs c B hr _ ctx hst
+
+/-- the loop body of `Lin.neScan` -/
+def neBody (cs : List Int) (xs : List Nat) (st : Store) (acc : Option (Option Nat × Int)) (i : Nat) :
+    Option (Option Nat × Int) :=
+  match acc with
+  | none => none
+  | some (u, s) =>
+    let d := st (xs.getD i 0)
+    if d.dmin = d.dmax then some (u, s + cs.getD i 0 * d.dmin)
+    else match u with
+      | some _ => none
+      | none => some (some i, s)
+
+theorem lin_neScan_def (cs : List Int) (xs : List Nat) (st : Store) :
+    Lin.neScan cs xs st = (List.range xs.length).foldl (neBody cs xs st) (some (none, 0)) := rfl
+
+theorem neBody_none (cs : List Int) (xs : List Nat) (st : Store) (l : List Nat) :
+    l.foldl (neBody cs xs st) none = none := by
+  induction l with
+  | nil => rfl
+  | cons x l ih => simpa [neBody] using ih
+
+theorem neScan_val (cs : List Int) (xs : List Nat) (st : Store) (B : Nat) (hst : VS.StoreOK st B) :
+    ∀ (is : List Nat) (u : Option Nat) (s : Int) (A : Nat), s.natAbs ≤ A →
+      A + (is.map (term cs B)).sum ≤ 2147483647 →
+      (LS.neScan cs xs st is u s).2 = is.foldl (neBody cs xs st) (some (u, s)) := by
+  intro is
+  induction is with
+  | nil => intro u s A _ _; rfl
+  | cons i rest ih =>
+    intro u s A hs hA
+    simp only [List.map_cons, List.sum_cons] at hA
+    obtain ⟨hne, hb⟩ := hst (xs.getD i 0)
+    unfold LS.neScan
+    simp only [List.foldl_cons, neBody]
+    by_cases hfix : (st (xs.getD i 0)).dmin = (st (xs.getD i 0)).dmax
+    · simp only [hfix, if_true]
+      have pm := mul_abs (cs.getD i 0) _ B (hb _ (Dom.dmax_mem _ hne))
+      have ht : term cs B i = (cs.getD i 0).natAbs * B := rfl
+      have sa := Int.natAbs_add_le s (cs.getD i 0 * (st (xs.getD i 0)).dmax)
+      rw [sat_id _ (by omega)]
+      exact ih u _ (A + term cs B i) (by omega) (by omega)
+    · simp only [hfix, if_false]
+      cases u with
+      | some k => simp only []; exact (neBody_none cs xs st rest).symm
+      | none => simp only []; exact ih (some i) s A hs (by omega)
+
+theorem exclude_val (x : Nat) (f : Int) (ctx : Ctx) : (LS.exclude x f ctx).2 = Lin.excludeValue x f ctx := by
+  unfold LS.exclude Lin.excludeValue
+  simp only []
+  split
+  · rfl
+  · split
+    · rfl
+    · split
+      · rfl
+      · split <;> rfl
+
+theorem pruneNe_eq_PK (cs : List Int) (xs : List Nat) (c : Int) (B : Nat) (hr : RowOK cs xs c B)
+    (ctx : Ctx) (hst : VS.StoreOK ctx.st B) :
+    (LS.pruneNe cs xs c ctx).2 = PK.prune (.linNe cs xs c) ctx := by
+  show _ = Lin.pruneNe cs xs c ctx
+  obtain ⟨hlen, hmag, hdom⟩ := hr
+  have hWe : ((List.range xs.length).map (term cs B)).sum = LS.weight cs xs.length B := rfl
+  have hW : 0 + ((List.range xs.length).map (term cs B)).sum ≤ 2147483647 := by omega
+  have hv := neScan_val cs xs ctx.st B hst (List.range xs.length) none 0 0 (by simp) hW
+  obtain ⟨_, r2⟩ := neScan_ok cs xs ctx.st B hst (List.range xs.length) none 0 0
+    (fun i hi => by have := List.mem_range.1 hi; omega) (fun k hk => by cases hk) (by simp) hW
+  unfold LS.pruneNe Lin.pruneNe
+  rw [lin_neScan_def, ← hv]
+  simp only []
+  split
+  · rename_i e; rw [e]
+  · rename_i s e; rw [e]
+  · rename_i i s e
+    rw [e]
+    obtain ⟨q1, _⟩ := r2 (some i) s e
+    rw [Nat.zero_add, hWe] at q1
+    simp only []
+    by_cases hc0 : cs.getD i 0 = 0
+    · simp only [hc0, if_true]
+    · simp only [hc0, if_false]
+      have t1 := Int.natAbs_sub_le c s
+      rw [sat_id (c - s) (by omega)]
+      by_cases hm : (c - s).tmod (cs.getD i 0) = 0
+      · simp only [hm, if_true]; exact exclude_val _ _ _
+      · simp only [hm, if_false]
+
 end LS
+
+/-! ### `SparseSet`: queries, iterators, constructors -/
+
+/-- bounds of a constructor argument: inside `[-2^30, 2^30 - 1)` -/
+def SmallB (v : Int) : Prop := -1073741824 ≤ v ∧ v < 1073741823
+
+namespace SSS
+open SS
+
+theorem valSites_ok (a : Bool) (s : SS) (i : Nat) (hv : s.val i < s.n) (hs : a = true → Small s) :
+    AllOk a [Site.fid (s.val i), Site.i32 ((s.val i : Int) + s.off)] := by
+  refine allOk_cons (okIf_fid a _ ?_) (allOk_cons (okIf_i32 a _ ?_) (allOk_nil a))
+  · intro ha; obtain ⟨h1, h2⟩ := hs ha; simp only [i32Min, i32Max]; omega
+  · intro ha; obtain ⟨h1, h2⟩ := hs ha; simp only [i32Min, i32Max]; omega
+
+/-- a stored value (position below `n`) is a small argument -/
+theorem val_small (s : SS) (h : s.WF) (hs : Small s) (i : Nat) (hi : i < s.n) :
+    SmallV ((s.val i : Int) + s.off) := by
+  have hv : s.val i < s.n := (h.perm.1 i hi).1
+  obtain ⟨h1, h2⟩ := hs
+  unfold SmallV; omega
+
+theorem subsetFrom_ok (a : Bool) (s o : SS) (h : s.WF) (hs : a = true → Small s) (ho : a = true → Small o) :
+    ∀ is : List Nat, (∀ i ∈ is, i < s.size) → AllOk a (SSS.subsetFrom s o is) := by
+  intro is
+  induction is with
+  | nil => intro _; exact allOk_nil a
+  | cons i r ih =>
+    intro his
+    have hi : i < s.size := his i List.mem_cons_self
+    have hin : i < s.n := by have := h.size_le; omega
+    have hv : s.val i < s.n := (h.perm.1 i hin).1
+    unfold SSS.subsetFrom
+    refine allOk_append (allOk_append (allOk_cons (okIf_idx a _ _ hin) (valSites_ok a s i hv hs))
+      (contains_ok a o _ ho (fun ha => val_small s h (hs ha) i hin))) ?_
+    split
+    · exact ih (fun k hk => his k (List.mem_cons_of_mem _ hk))
+    · exact allOk_nil a
+
+theorem isSubsetOf_ok (a : Bool) (s o : SS) (h : s.WF) (hs : a = true → Small s) (ho : a = true → Small o) :
+    AllOk a (SSS.isSubsetOf s o) :=
+  subsetFrom_ok a s o h hs ho _ (fun _ hi => List.mem_range.1 hi)
+
+theorem equals_ok (a : Bool) (s o : SS) (h : s.WF) (hs : a = true → Small s) (ho : a = true → Small o) :
+    AllOk a (SSS.equals s o) := by
+  unfold SSS.equals
+  split
+  · exact allOk_nil a
+  · exact allOk_append (allOk_cons (okIf_le a _ _ h.size_le) (allOk_nil a))
+      (subsetFrom_ok a s o h hs ho _ (fun _ hi => List.mem_range.1 hi))
+
+theorem complementIter_ok (a : Bool) (s : SS) (h : s.WF) (hs : a = true → Small s) :
+    AllOk a (SSS.complementIter s) := by
+  unfold SSS.complementIter
+  refine allOk_cons (okIf_le a _ _ h.size_le) (allOk_flatMap _ _ ?_)
+  intro i hi
+  have hi' : i < s.n - s.size := List.mem_range.1 hi
+  have hv : s.val (s.size + i) < s.n := (h.perm.1 _ (by omega)).1
+  exact valSites_ok a s _ hv hs
+
+theorem first_ok (a : Bool) (s : SS) (h : s.WF) (hs : a = true → Small s) : AllOk a (SSS.first s) := by
+  unfold SSS.first
+  by_cases he : s.isEmpty = true
+  · rw [if_pos he]; exact allOk_nil a
+  · rw [if_neg he]
+    have hne : s.size ≠ 0 := by simpa [isEmpty] using he
+    have hn : 0 < s.n := by have := h.size_le; omega
+    exact allOk_cons (okIf_idx a _ _ hn) (valSites_ok a s 0 (h.perm.1 0 hn).1 hs)
+
+theorem last_ok (a : Bool) (s : SS) (h : s.WF) (hs : a = true → Small s) : AllOk a (SSS.last s) := by
+  unfold SSS.last
+  by_cases he : s.isEmpty = true
+  · rw [if_pos he]; exact allOk_nil a
+  · rw [if_neg he]
+    have hne : s.size ≠ 0 := by simpa [isEmpty] using he
+    have hn : s.size - 1 < s.n := by have := h.size_le; omega
+    exact allOk_cons (okIf_pos a _ (by omega)) (allOk_cons (okIf_idx a _ _ hn) (valSites_ok a s _ (h.perm.1 _ hn).1 hs))
+
+theorem maxUniverse_ok (a : Bool) (s : SS) (hs : a = true → Small s) : AllOk a (SSS.maxUniverse s) := by
+  unfold SSS.maxUniverse
+  refine allOk_cons (okIf_fid a _ ?_) (allOk_cons (okIf_i32 a _ ?_) (allOk_cons (okIf_i32 a _ ?_) (allOk_nil a))) <;>
+  · intro ha; obtain ⟨h1, h2⟩ := hs ha; simp only [i32Min, i32Max]; omega
+
+theorem restoreSize_ok (a : Bool) (s : SS) (k : Nat) (hk : k ≤ s.n) : AllOk a (SSS.restoreSize s k) :=
+  allOk_cons (okIf_le a _ _ hk) (allOk_nil a)
+
+theorem new_ok (lo hi : Int) (hlo : SmallB lo) (hhi : SmallB hi) : AllOk true (SSS.new lo hi) := by
+  obtain ⟨a1, a2⟩ := hlo
+  obtain ⟨b1, b2⟩ := hhi
+  unfold SSS.new
+  by_cases h : lo > hi
+  · simp only [h, if_true]
+    exact allOk_cons (okIf_i32 _ _ (fun _ => by simp only [i32Min, i32Max]; omega))
+      (allOk_cons (okIf_u32 _ _ (fun _ => by simp only [u32Max]; omega)) (allOk_nil _))
+  · simp only [h, if_false]
+    exact allOk_cons (okIf_i32 _ _ (fun _ => by simp only [i32Min, i32Max]; omega))
+      (allOk_cons (okIf_u32 _ _ (fun _ => by simp only [u32Max]; omega)) (allOk_nil _))
+
+theorem new_small (lo hi : Int) (hlo : SmallB lo) (hhi : SmallB hi) : Small (SS.new lo hi) := by
+  obtain ⟨a1, a2⟩ := hlo
+  obtain ⟨b1, b2⟩ := hhi
+  refine ⟨?_, ?_⟩
+  · simp only [SS.new]; split <;> omega
+  · simp only [SS.new]; split <;> omega
+
+/-- the sites of `new` are never structural -/
+theorem new_structural (a : Bool) (lo hi : Int) (h : a = true → AllOk true (SSS.new lo hi)) :
+    AllOk a (SSS.new lo hi) := by
+  cases a
+  · intro x hx
+    simp only [SSS.new, List.mem_cons, List.not_mem_nil, or_false] at hx
+    rcases hx with rfl | rfl <;> simp [Site.okIf, Site.structural]
+  · exact h rfl
+
+theorem newFromValues_ok (a : Bool) (vs : List Int) (hv : a = true → ∀ w ∈ vs, SmallB w) :
+    AllOk a (SSS.newFromValues vs) := by
+  unfold SSS.newFromValues
+  by_cases he : vs.isEmpty = true
+  · rw [if_pos he]; exact allOk_nil a
+  · rw [if_neg he]
+    have hne : vs ≠ [] := by intro h; rw [h] at he; simp at he
+    have hlo : a = true → SmallB (listMin vs) := fun ha => hv ha _ (Dom.dmin_mem vs hne)
+    have hhi : a = true → SmallB (listMax vs) := fun ha => hv ha _ (Dom.dmax_mem vs hne)
+    have hnew : AllOk a (SSS.new (listMin vs) (listMax vs)) :=
+      new_structural a _ _ (fun ha => new_ok _ _ (hlo ha) (hhi ha))
+    simp only []
+    split
+    · exact hnew
+    · refine allOk_append hnew (foldRemove_ok a _ _ (new_wf _ _) (fun ha => new_small _ _ (hlo ha) (hhi ha)) ?_)
+      intro ha w hw
+      have hm := (mem_intRange _ _ _).1 (List.mem_filter.1 hw).1
+      obtain ⟨a1, a2⟩ := hlo ha
+      obtain ⟨b1, b2⟩ := hhi ha
+      unfold SmallV; omega
+
+end SSS
 
 end Safety
 end Selen
